@@ -51,6 +51,12 @@ func c19Inputs(m *refmodel.Model) []string {
 				}
 			}
 		}
+		// every single-byte deletion and every single-byte duplication (strings, numbers and arrays one element shorter / longer
+		// than any valid sample: length-keyed slicing in hand-written decoders shows here)
+		for i := 0; i < len(base); i++ {
+			add(base[:i] + base[i+1:])
+			add(base[:i+1] + base[i:])
+		}
 		// duplicate keys: the base object with its first member repeated with another value
 		if strings.HasPrefix(base, `{"`) && len(base) > 2 {
 			if j := strings.Index(base, `":`); j > 0 {
